@@ -1048,7 +1048,7 @@ fn run(args: Args) -> Report {
     match args.prop.as_str() {
         "C05" => {
             while t0.elapsed().as_secs_f64() < args.budget_s {
-                let case_seed = r.next_u64();
+                let Some(case_seed) = args.next_case(&mut r) else { break };
                 let mut cr = Rng::new(case_seed);
                 let cfg = gen_cfg(&mut cr, false);
                 let mut ws = gen::generate(&mut cr, &cfg);
@@ -1078,7 +1078,7 @@ fn run(args: Args) -> Report {
                 run_c06_case(&mut rep, &files, "corpus", json!({"kind":"workspace","files":files_json(&files),"origin":name}));
             }
             while t0.elapsed().as_secs_f64() < args.budget_s {
-                let case_seed = r.next_u64();
+                let Some(case_seed) = args.next_case(&mut r) else { break };
                 let mut cr = Rng::new(case_seed);
                 let (files, origin) = if cr.chance(1, 3) {
                     let d = vh::damage::damaged_workspace(&mut cr);
@@ -1104,7 +1104,7 @@ fn run(args: Args) -> Report {
         "C07" => {
             let per_ws = if args.thorough() { 60 } else { 24 };
             while t0.elapsed().as_secs_f64() < args.budget_s {
-                let case_seed = r.next_u64();
+                let Some(case_seed) = args.next_case(&mut r) else { break };
                 let mut cr = Rng::new(case_seed);
                 let cfg = gen_cfg(&mut cr, false);
                 let mut ws = gen::generate(&mut cr, &cfg);
@@ -1124,7 +1124,7 @@ fn run(args: Args) -> Report {
         "C08" => {
             let per_ws = if args.thorough() { 80 } else { 30 };
             while t0.elapsed().as_secs_f64() < args.budget_s {
-                let case_seed = r.next_u64();
+                let Some(case_seed) = args.next_case(&mut r) else { break };
                 let mut cr = Rng::new(case_seed);
                 let mut cfg = gen_cfg(&mut cr, false);
                 cfg.modules = cr.range(2, 4);
@@ -1139,7 +1139,7 @@ fn run(args: Args) -> Report {
         }
         "C18" => {
             while t0.elapsed().as_secs_f64() < args.budget_s {
-                let case_seed = r.next_u64();
+                let Some(case_seed) = args.next_case(&mut r) else { break };
                 let mut cr = Rng::new(case_seed);
                 let cfg = gen_cfg(&mut cr, true);
                 let mut ws = gen::generate(&mut cr, &cfg);
